@@ -195,17 +195,17 @@ Init == dom \in Domains /\ cells = [r \in Regions |-> EmptyRegion]
 
 Upd(r, c) == cells' = [cells EXCEPT ![r] = c] /\ UNCHANGED dom
 
-Add(r, o, v)               == v.s > 0 /\ Upd(r, RAdd(dom, cells[r], o, v))
-Remove(r, o, n)            == n > 0 /\ Upd(r, RRemove(cells[r], o, n))
-MergeWriteTop(r, o, s)     == s > 0 /\ Upd(r, RWriteTop(dom, cells[r], o, s))
-MarkIntervalTop(r, a, b, s) == a <= b /\ s > 0 /\ Upd(r, RMarkInterval(dom, cells[r], a, b, s))
-MarkAllTop(r)              == Upd(r, RMarkAll(dom, cells[r]))
-Shift(r, k)                == Upd(r, RShift(cells[r], k))
-Merge(dst, src)            == Upd(dst, RMerge(dom, cells[dst], cells[src]))
-Copy(dst, src)             == Upd(dst, cells[src])
-NewTop(r)                  == Upd(r, EmptyRegion)
-SetValues(r, S, w)         == Upd(r, RSetValues(dom, cells[r], S, w))
-ClearTop(r)                == Upd(r, DropTop(dom, cells[r]))
+Add(r, o, v)                == r \in Regions /\ v.s > 0 /\ Upd(r, RAdd(dom, cells[r], o, v))
+Remove(r, o, n)             == r \in Regions /\ n > 0 /\ Upd(r, RRemove(cells[r], o, n))
+MergeWriteTop(r, o, s)      == r \in Regions /\ s > 0 /\ Upd(r, RWriteTop(dom, cells[r], o, s))
+MarkIntervalTop(r, a, b, s) == r \in Regions /\ a <= b /\ s > 0 /\ Upd(r, RMarkInterval(dom, cells[r], a, b, s))
+MarkAllTop(r)               == r \in Regions /\ Upd(r, RMarkAll(dom, cells[r]))
+Shift(r, k)                 == r \in Regions /\ Upd(r, RShift(cells[r], k))
+Merge(dst, src)             == dst \in Regions /\ src \in Regions /\ Upd(dst, RMerge(dom, cells[dst], cells[src]))
+Copy(dst, src)              == dst \in Regions /\ src \in Regions /\ Upd(dst, cells[src])
+NewTop(r)                   == r \in Regions /\ Upd(r, EmptyRegion)
+SetValues(r, S, w)          == r \in Regions /\ Upd(r, RSetValues(dom, cells[r], S, w))
+ClearTop(r)                 == r \in Regions /\ Upd(r, DropTop(dom, cells[r]))
 
 \* start of a new independent run (trace validation: one JVM, many cases)
 Reset(D) == dom' = D /\ cells' = [r \in Regions |-> EmptyRegion]
